@@ -1,7 +1,7 @@
 #!/bin/sh
 # usage: tools/try_mutant.sh <patch.diff> <Cxx> [<Cyy> ...]   - applies the patch to /repo, runs the quick checks, ALWAYS reverts
 # prints one line per check: <id> rc=<exit> <VIOLATION lines count>
-P="$1"; shift
+P="$(readlink -f "$1")"; shift
 cd /repo || exit 9
 if [ -n "$(git status --porcelain)" ]; then echo "repo not clean"; exit 9; fi
 git apply "$P" || { echo "patch does not apply"; exit 9; }
